@@ -1,23 +1,31 @@
 #!/bin/bash
 # /verif/bin/benign_all.sh [filter]: no-false-alarm corpus.  Applies each behaviour-preserving edit kept under
 # /verif/benign/<name>/patch.diff to a scratch copy of /repo and runs the quick checks listed in benign/props.tsv.
+# JOBS=n runs n edits at a time (default 1).
 export GOFLAGS=-mod=mod GOPROXY=off GOSUMDB=off GOTOOLCHAIN=local CGO_ENABLED=0
-V=/verif; F="${1:-}"
-S=$(mktemp -d /var/tmp/govc-benign-XXXXXX); trap 'rm -rf "$S"' EXIT
-bad=0; n=0
-while IFS=$'\t' read -r name props expect; do
-  case "$name" in \#*|"") continue;; esac
-  [ -n "$F" ] && [[ "$name" != *"$F"* ]] && continue
-  rm -rf "$S/repo"; mkdir -p "$S/repo"; rsync -a --exclude .git /repo/ "$S/repo/"
-  (cd "$S/repo" && patch -p1 -s --no-backup-if-mismatch < $V/benign/$name/patch.diff) || { echo "BENIGN $name: patch does not apply"; continue; }
+V=/verif; F="${1:-}"; JOBS="${JOBS:-1}"
+T=$(mktemp -d /var/tmp/govc-benign-XXXXXX); trap 'rm -rf "$T"' EXIT
+R="$T/results"; : > "$R"
+one() {
+  local name="$1" props="$2" expect="$3" S p rc; S=$(mktemp -d "$T/e-XXXXXX")
+  mkdir -p "$S/repo"; rsync -a --exclude .git /repo/ "$S/repo/"
+  (cd "$S/repo" && patch -p1 -s --no-backup-if-mismatch < $V/benign/$name/patch.diff) || { echo "BENIGN $name: patch does not apply" | tee -a "$R"; rm -rf "$S"; return; }
   for p in $props; do
     mkdir -p "$S/smt" "$S/rep"
     $V/bin/govc -repo "$S/repo" -spec $V/spec -prop "$p" -tier quick -noreplay -work "$S/smt" -evidence "$S/ev.json" -replays "$S/rep" -known $V/known_findings.txt >/dev/null 2>&1; rc=$?
-    n=$((n+1))
-    if [ $rc -eq 0 ]; then echo "BENIGN $name [$p]: quiet"
-    else echo "BENIGN $name [$p]: ALARM (exit $rc) - expected: $expect"; case "$expect" in quiet*) bad=$((bad+1));; esac; fi
+    if [ $rc -eq 0 ]; then echo "BENIGN $name [$p]: quiet" | tee -a "$R"
+    else case "$expect" in quiet*) echo "BENIGN $name [$p]: UNEXPECTED ALARM (exit $rc) - expected: $expect" | tee -a "$R";; *) echo "BENIGN $name [$p]: ALARM (exit $rc) - expected: $expect" | tee -a "$R";; esac; fi
     rm -rf "$S/smt" "$S/rep"
   done
+  rm -rf "$S"
+}
+while IFS=$'\t' read -r name props expect; do
+  case "$name" in \#*|"") continue;; esac
+  [ -n "$F" ] && [[ "$name" != *"$F"* ]] && continue
+  while [ "$(jobs -rp | wc -l)" -ge "$JOBS" ]; do sleep 1; done
+  one "$name" "$props" "$expect" &
 done < $V/benign/props.tsv
+wait
+n=$(grep -c "\[" "$R"); bad=$(grep -c "UNEXPECTED" "$R")
 echo "benign: $n runs, $bad unexpected alarms"
 [ $bad -eq 0 ]
